@@ -37,7 +37,7 @@ fn c12_mask_shift_entries_lie_inside_the_slot() {
     use crate::c08::{analyze_layout};
     let mut cases = 0;
     for shift in [0u16, 8, 96, 128, 160, 196, 200, 240, 248, 255, 256, 300] {
-        for (mask_pos, mask_len) in [(0u32, 8u32), (8, 8), (56, 8), (64, 16), (128, 32), (160, 96), (248, 8)] {
+        for (mask_pos, mask_len) in [(0u32, 8u32), (8, 8), (56, 8), (64, 16), (128, 32), (160, 96), (248, 8), (243, 13), (246, 10), (251, 5), (100, 13), (0, 255)] {
             // PUSH1 0 SLOAD PUSH2 shift SHR PUSH32 mask AND PUSH1 1 SSTORE STOP
             let mask = ((U256::ONE << mask_len) - U256::ONE) << mask_pos;
             let mut code = vec![0x60, 0x00, 0x54, 0x61];
